@@ -1,6 +1,8 @@
 package main
 
 import (
+	"os"
+	"runtime"
 	"fmt"
 	"sort"
 	"strconv"
@@ -15,6 +17,7 @@ import (
 // ---------- a real server + real in-memory backend on the in-memory network ----------
 
 type server struct {
+	seenPanics int
 	h    *srvkit.Harness
 	mem  *imapmemserver.Server
 	user *imapmemserver.User
@@ -54,7 +57,7 @@ func (s *server) panics() []string {
 				lines := strings.Split(l, "\n")
 				keep := []string{lines[0]}
 				for _, x := range lines[1:] {
-					if strings.Contains(x, "go-imap") && strings.Contains(x, "(") && !strings.Contains(x, "serve") && len(keep) < 6 {
+					if strings.Contains(x, "go-imap") && strings.Contains(x, "(") && !strings.Contains(x, ").serve(") && !strings.Contains(x, "runtime/") && len(keep) < 6 {
 						keep = append(keep, strings.TrimSpace(x))
 					}
 				}
@@ -95,6 +98,7 @@ type reply struct {
 	status  string        // OK / NO / BAD of the tagged reply ("" when there is none)
 	text    string        // text of the tagged reply after the status word
 	problem string        // non-empty when the framing clause is violated: closed / no-tagged / ...
+	panicLog string       // the server's panic report, when the command made it panic
 	raw     string
 }
 
@@ -386,4 +390,16 @@ func joinU32(l []uint32) string {
 		p = append(p, strconv.FormatUint(uint64(x), 10))
 	}
 	return strings.Join(p, ",")
+}
+
+// workers: every execution is a chain of hand-offs between the driver goroutine and the server
+// goroutines, so more drivers than cores are needed to keep the cores busy.
+func workers() int {
+	n := runtime.GOMAXPROCS(0) * 4
+	if v := os.Getenv("C09_WORKERS"); v != "" {
+		if x, err := strconv.Atoi(v); err == nil && x > 0 {
+			n = x
+		}
+	}
+	return n
 }
